@@ -115,6 +115,71 @@ def other_views(jinja2, c, env, s, toks):
     return None
 
 
+def run_lazy_interleaving(ctx, jinja2):
+    """lex() returns a lazy generator: generators of several environments that differ in exactly ONE option
+    (and of the same environment twice) are all created first and consumed afterwards in every order /
+    step by step; each must yield what its environment yields when lexed alone"""
+    import itertools
+    base = dict(L.Cfg("default").kwargs())
+    variations = [("trim_blocks", True), ("lstrip_blocks", True), ("keep_trailing_newline", True), ("newline_sequence", "\r\n"),
+                  ("line_statement_prefix", "#"), ("line_comment_prefix", "##"), ("comment_start_string", "<#"), ("block_end_string", "%>")]
+    for j in range(ctx.size(600, 6000)):
+        opt, val = ctx.rng.choice(variations)
+        also = dict(ctx.rng.sample([("trim_blocks", True), ("lstrip_blocks", True), ("keep_trailing_newline", True)], ctx.rng.randint(0, 2)))
+        also.pop(opt, None)
+        kw_a = dict(base, **also)
+        kw_b = dict(kw_a, **{opt: val})
+        ca = L.Cfg("default", kw_a["trim_blocks"], kw_a["lstrip_blocks"], keep=kw_a["keep_trailing_newline"])
+        src = L.gen_source(ctx.rng, ca, maxparts=6) + ctx.rng.choice(["", "\n", "\n  {% if x %}\n a\n  {% endif %}\n"])
+        envs = [jinja2.Environment(**kw_a), jinja2.Environment(**kw_b), jinja2.Environment(**kw_a)]
+
+        def alone(e):
+            out = []
+            try:
+                for tok in e.lex(src):
+                    out.append(tuple(tok))
+            except jinja2.TemplateSyntaxError as ex:
+                out.append(("ERR", ex.lineno))
+            return out
+        refs = [alone(e) for e in envs]
+        case = {"kind": "lazy", "src": src, "option": opt, "value": val, "shared": also}
+        ctx.case(sample=case if j < 2 else None, key=("lazy", opt, src))
+        ctx.count("lazy_interleaving")
+        bad = None
+        orders = list(itertools.permutations(range(3)))
+        for order in ctx.rng.sample(orders, 3) + ["steps"]:
+            gens = [iter(e.lex(src)) for e in envs]          # all created before any is consumed
+            outs = [[] for _ in envs]
+            if order == "steps":
+                live = [0, 1, 2]
+                while live:
+                    for i in list(live):
+                        try:
+                            outs[i].append(tuple(next(gens[i])))
+                        except StopIteration:
+                            live.remove(i)
+                        except jinja2.TemplateSyntaxError as ex:
+                            outs[i].append(("ERR", ex.lineno))
+                            live.remove(i)
+            else:
+                for i in order:
+                    try:
+                        for tok in gens[i]:
+                            outs[i].append(tuple(tok))
+                    except jinja2.TemplateSyntaxError as ex:
+                        outs[i].append(("ERR", ex.lineno))
+            for i in range(3):
+                if outs[i] != refs[i]:
+                    bad = "consumed %s: environment %d (%s) yields %r, alone %r" % (order, i, "with " + opt if i == 1 else "without", outs[i][:6], refs[i][:6])
+                    break
+            if bad:
+                break
+        if bad:
+            ctx.reject(case, bad, "C39:lazy:%s:%r" % (opt, src))
+        else:
+            ctx.validated()
+
+
 def run_babel(ctx, jinja2):
     """message extraction relies on the positions: babel_extract must report every message on the line on which
     its call / trans tag starts (line breaks in all three forms, whitespace control, raw blocks, multi-line
@@ -209,6 +274,7 @@ def run(ctx):
     try:
         from . import c13
         tr = c13.load_translator()
+        ctx.coq_obligation("LexEnvFacts", tr.coq_text(tr.facts(lib.REPO)), n_obligations=4)
         ok, _ = ctx.coq_obligation("LexApiFacts", tr.coq_text_lex(tr.lex_facts(lib.REPO)), n_obligations=1)
         if ok:
             ctx.case(sample={"T1": "lex_is_raw: Environment.lex calls tokeniter and no preprocessing hook"}, key="T1")
@@ -292,6 +358,7 @@ def run(ctx):
                 ctx.count("with_gaps")
         ctx.validated()
     run_babel(ctx, jinja2)
+    run_lazy_interleaving(ctx, jinja2)
 
 
 def replay(ctx, data):
@@ -300,6 +367,26 @@ def replay(ctx, data):
     if data.get("kind") != "failing-input" or case is None:
         print("replay: this file names a broken theorem/correspondence, not an input:", data.get("broken"))
         return run(ctx)
+    if case.get("kind") == "lazy":
+        kw_a = dict(L.Cfg("default").kwargs(), **case["shared"])
+        kw_b = dict(kw_a, **{case["option"]: case["value"]})
+        ea, eb = jinja2.Environment(**kw_a), jinja2.Environment(**kw_b)
+
+        def run_(e):
+            try:
+                return [tuple(x) for x in e.lex(case["src"])]
+            except jinja2.TemplateSyntaxError as ex:
+                return [("ERR", ex.lineno)]
+        ra, rb = run_(ea), run_(eb)
+        ga, gb = ea.lex(case["src"]), eb.lex(case["src"])
+        try:
+            oa = [tuple(x) for x in ga]
+        except jinja2.TemplateSyntaxError as ex:
+            oa = [("ERR", ex.lineno)]
+        print("source:", repr(case["src"]), "option:", case["option"], "\nalone      :", ra, "\ninterleaved:", oa)
+        if oa != ra:
+            ctx.reject(case, "generator created before the other environment's lookup yields %r, alone %r" % (oa[:6], ra[:6]), data.get("signature"))
+        return
     if case.get("kind") == "babel":
         import io
         from jinja2.ext import babel_extract
